@@ -211,6 +211,9 @@ func (x *vc) reflectModel(fr *frame, st *state, callee *ssa.Function, args []Val
 		inner := ite(eq(kind(v), "20"), app("rv_elem", v), v)
 		x.assume(st.guard, and(
 			implies(not(eq(kind(v), "20")), and(not(eq(app("itag", r), "0")), eq(app("itag", r), app("rv_type", v)), eq(app("kind_of_type", app("itag", r)), kind(v)))),
+			// an Interface-kinded Value yields what the interface holds: nil for a nil interface, else the element's dynamic type
+			implies(and(eq(kind(v), "20"), app("rv_isnil", v)), eq(r, "(mkiface 0 0)")),
+			implies(and(eq(kind(v), "20"), not(app("rv_isnil", v))), and(not(eq(app("itag", r), "0")), eq(app("kind_of_type", app("itag", r)), kind(app("rv_elem", v))))),
 			implies(app("rv_floatkind", kind(inner)), eq(app("unbox_F64", app("ival", r)), app("rv_float", inner))),
 			implies(eq(kind(inner), "24"), eq(app("unbox_Str", app("ival", r)), app("rv_str", inner))),
 			implies(eq(kind(inner), "1"), eq(app("unbox_Bool", app("ival", r)), app("rv_bool", inner))),
@@ -249,7 +252,12 @@ func (x *vc) reflectModel(fr *frame, st *state, callee *ssa.Function, args []Val
 		return r, true
 	case "(reflect.Value).Type":
 		need("Type", app("rv_valid", v), "receiver must be valid")
-		return x.freshResult(st, resT, "rvtype"), true
+		r := x.freshResult(st, resT, "rvtype")
+		// the reflect.Type descriptor of v's type: identified with the type tag (rtype_id), never nil
+		x.needDecl("(declare-fun rtype_id (Iface) Int)")
+		x.assume(st.guard, and(eq(app("rtype_id", r.T), app("rv_type", v)), not(eq(app("itag", r.T), "0")), not(eq(app("ival", r.T), "0")),
+			eq(app("kind_of_type", app("rv_type", v)), kind(v))))
+		return r, true
 	case "(reflect.Value).MapIndex":
 		need("MapIndex", eq(kind(v), "21"), "receiver must be a Map")
 		r := x.define("rvmapidx", sInt, app("rv_mapindex", v, args[1].T))
@@ -330,7 +338,14 @@ func (x *vc) reflectModel(fr *frame, st *state, callee *ssa.Function, args []Val
 		return r, true
 	case "reflect.Zero", "reflect.New", "reflect.Indirect":
 		return newRV("rvnew"), true
-	case "reflect.TypeOf", "reflect.SliceOf", "reflect.PtrTo", "reflect.PointerTo", "reflect.MapOf":
+	case "reflect.TypeOf":
+		// nil for the nil interface, else the descriptor of the dynamic type
+		r := x.freshResult(st, resT, "rtypeof")
+		x.needDecl("(declare-fun rtype_id (Iface) Int)")
+		x.assume(st.guard, and(eq(eq(r.T, "(mkiface 0 0)"), eq(args[0].T, "(mkiface 0 0)")),
+			implies(not(eq(args[0].T, "(mkiface 0 0)")), and(eq(app("rtype_id", r.T), app("itag", args[0].T)), not(eq(app("ival", r.T), "0"))))))
+		return r, true
+	case "reflect.SliceOf", "reflect.PtrTo", "reflect.PointerTo", "reflect.MapOf":
 		return x.freshResult(st, resT, "rtype"), true
 	case "reflect.DeepEqual":
 		r := x.freshVal("deepeq", boolT, st)
